@@ -138,11 +138,14 @@ def get_code_from_bytes(codedata, version):
     return code_length, code, compressed_size
 
 
-def get_bytes_from_code(code):
+def get_bytes_from_code(code, version=None):
     """Gets the byte data for code text.
 
     Args:
         code: The code text.
+        version: The version of the cart data, if known. Readers take the
+          code of a version 0 cart for plain text whatever it starts with,
+          so it is never stored compressed.
 
     Returns:
         The bytes for the code, possibly compressed.
@@ -152,10 +155,18 @@ def get_bytes_from_code(code):
     # header of the compressed form. Code it cannot represent is stored
     # compressed whatever its size.
     raw_ok = b'\0' not in code and bytes(code) != b':c:'
-    if (len(compressed_bytes) + 8 < len(code)) or not raw_ok:
-        # Use compressed, if that is smaller once its 8-byte header is
+    if version == 0:
+        if b'\0' in code:
+            raise InvalidP8PNGError(
+                'code with a NUL character cannot be stored in a version 0 '
+                '.p8.png cart')
+        use_compressed = False
+    else:
+        # Use compressed if that is smaller once its 8-byte header is
         # counted. (Otherwise code that fits uncompressed could be refused
         # because its slightly smaller compressed form plus header does not.)
+        use_compressed = (len(compressed_bytes) + 8 < len(code)) or not raw_ok
+    if use_compressed:
         code_length_bytes = bytes([len(code) >> 8, len(code) & 255])
         code_bytes = b''.join(
             [b':c:\0', code_length_bytes, b'\0\0',
@@ -283,7 +294,8 @@ class P8PNGFormatter(BaseFormatter):
 
         cart_lua = game.lua.to_lines(writer_cls=lua_writer_cls,
                                      writer_args=lua_writer_args)
-        code_bytes = get_bytes_from_code(b''.join(cart_lua))
+        code_bytes = get_bytes_from_code(b''.join(cart_lua),
+                                         version=game.version)
 
         picodata = b''.join((game.gfx.to_bytes(),
                              game.map.to_bytes(),
